@@ -2,6 +2,7 @@ package c28
 
 import (
 	"fmt"
+	"os"
 	"testing"
 
 	"github.com/nspcc-dev/neofs-node/verifharness/ev"
@@ -62,7 +63,7 @@ func TestC28Decision(t *testing.T) {
 	defer rec.Flush()
 	s := newSUT()
 	rapid.Check(t, func(t *rapid.T) {
-		c := genCase(t)
+		c := genCase(t, false)
 		ref := refDecide(c)
 		rec.Case(nontrivial(c, ref), c.String(), caseLabels(c, ref)...)
 		if rec.WantSample() && ref.MatchedRecord {
@@ -133,7 +134,7 @@ func TestC28Server(t *testing.T) {
 	defer rec.Flush()
 	s := newServerSUT()
 	rapid.Check(t, func(t *rapid.T) {
-		c := genCase(t)
+		c := genCase(t, false)
 		ref := refDecide(c)
 		twoStage := (c.Req == kGet || c.Req == kHead) && ref.NeedsObject
 		labels := append(caseLabels(c, ref), map[bool]string{true: "srv-needs-stored-header", false: "srv-decided-on-request"}[twoStage])
@@ -165,6 +166,57 @@ func TestC28Server(t *testing.T) {
 				t.Fatalf("PROPERTY VIOLATED: request served although the rules deny it: status %d %q reached %v\ncase: %s\nreference: deny by %s (role %s, op %s, bearer table used=%v)",
 					got.Code, got.Message, got.Reached, c, ref.Why, ref.Role, ref.Op, ref.UsedBearer)
 			}
+		}
+	})
+}
+
+// TestC28ServerStored drives GET and HEAD of really stored objects through the
+// real object.Server backed by the real Get service over a local storage
+// engine, so that the server itself performs its second eACL stage on the
+// header it has read (binary / message forms as the code chooses). Two
+// configurations: the ACL checker sees the same engine (the decision is made on
+// the request from the local header) or an empty one (the header becomes known
+// only after the handler has read it). Denied <=> ACCESS_DENIED and neither
+// header nor payload sent; allowed <=> OK and the header is returned.
+func TestC28ServerStored(t *testing.T) {
+	rec := ev.New("C28", "serverstored")
+	defer rec.Flush()
+	dir, err := os.MkdirTemp("", "c28-engine-")
+	if err != nil {
+		ev.Inconclusive("temp dir: %v", err)
+	}
+	defer os.RemoveAll(dir)
+	e, err := newStoredEngine(dir)
+	if err != nil {
+		ev.Inconclusive("storage engine with the object catalogue: %v", err)
+	}
+	defer e.Close()
+	suts := map[bool]*srvSUT{false: newStoredServerSUT(e, false), true: newStoredServerSUT(e, true)}
+	rapid.Check(t, func(t *rapid.T) {
+		c := genCase(t, true)
+		aclLocal := rapid.Bool().Draw(t, "acl-checker-sees-local-object")
+		ref := refDecide(c)
+		labels := append(caseLabels(c, ref), map[bool]string{true: "acl-local-header", false: "acl-header-after-read"}[aclLocal])
+		rec.Case(nontrivial(c, ref), fmt.Sprintf("%v|%s", aclLocal, c), labels...)
+
+		s := suts[aclLocal]
+		s.configure(c)
+		got, err := s.serveStored(buildRequest(c))
+		if err != nil {
+			t.Fatalf("server returned a transport error: %v\ncase: %s", err, c)
+		}
+		rec.Label(fmt.Sprintf("srv-code-%d", got.Code))
+		denied := got.Code == codeAccessDenied
+		switch {
+		case denied && got.GotHeader:
+			t.Fatalf("PROPERTY VIOLATED: ACCESS_DENIED but object data was sent before\ncase: %s", c)
+		case ref.Allow && denied:
+			t.Fatalf("over-restrictive (reference allows, server denies): %q\ncase: %s\nreference decided by %s (role %s)", got.Message, c, ref.Why, ref.Role)
+		case ref.Allow && (got.Code != 0 || !got.GotHeader):
+			t.Fatalf("reference allows but the stored object was not returned: status %d %q header=%v\ncase: %s", got.Code, got.Message, got.GotHeader, c)
+		case !ref.Allow && !denied:
+			t.Fatalf("PROPERTY VIOLATED: request served although the rules deny it: status %d %q header sent=%v (acl checker sees local object: %v)\ncase: %s\nreference: deny by %s (role %s, bearer table used=%v)",
+				got.Code, got.Message, got.GotHeader, aclLocal, c, ref.Why, ref.Role, ref.UsedBearer)
 		}
 	})
 }
